@@ -4412,19 +4412,30 @@ GRsetattr(int32 id, const char *name, int32 attr_nt, int32 count, const void *da
         {                 /* not cacheable, write directly out to disk and throw away old in-memory copy */
             int32 AttrID; /* attribute Vdata id */
 
-            /* Update data on disk */
-            if ((AttrID = VSattach(hdf_file_id, (int32)at_ptr->ref, "w")) == FAIL)
-                HGOTO_ERROR(DFE_CANTATTACH, FAIL);
-            if (VSsetfields(AttrID, at_ptr->name) == FAIL) {
-                VSdetach(AttrID);
-                HGOTO_ERROR(DFE_BADFIELDS, FAIL);
+            if (at_ptr->ref == DFREF_WILDCARD) {
+                /* The attribute has only lived in the cache so far, there is no Vdata to update: create it */
+                int32 new_ref;
+
+                if ((new_ref = VHstoredata(hdf_file_id, at_ptr->name, data, count, at_ptr->nt, RIGATTRNAME,
+                                           RIGATTRCLASS)) == FAIL)
+                    HGOTO_ERROR(DFE_VSCANTCREATE, FAIL);
+                at_ptr->ref = (uint16)new_ref;
             } /* end if */
-            if (VSwrite(AttrID, data, count, FULL_INTERLACE) == FAIL) {
-                VSdetach(AttrID);
-                HGOTO_ERROR(DFE_VSWRITE, FAIL);
-            } /* end if */
-            if (VSdetach(AttrID) == FAIL)
-                HGOTO_ERROR(DFE_CANTDETACH, FAIL);
+            else {
+                /* Update data on disk */
+                if ((AttrID = VSattach(hdf_file_id, (int32)at_ptr->ref, "w")) == FAIL)
+                    HGOTO_ERROR(DFE_CANTATTACH, FAIL);
+                if (VSsetfields(AttrID, at_ptr->name) == FAIL) {
+                    VSdetach(AttrID);
+                    HGOTO_ERROR(DFE_BADFIELDS, FAIL);
+                } /* end if */
+                if (VSwrite(AttrID, data, count, FULL_INTERLACE) == FAIL) {
+                    VSdetach(AttrID);
+                    HGOTO_ERROR(DFE_VSWRITE, FAIL);
+                } /* end if */
+                if (VSdetach(AttrID) == FAIL)
+                    HGOTO_ERROR(DFE_CANTDETACH, FAIL);
+            } /* end else */
 
             /* Update in-memory fields */
             at_ptr->len           = count;
